@@ -165,6 +165,16 @@ chk('C13',
     'Trusted: the dependency edges of the source as reported by the schema (C07 checks them) and the identifier regex.',
     'sanitizer build + reference-model monitor (closure/fixpoint + renaming) over extraction results', 'DESIGN.md 4 C13')
 
+chk('C19',
+    'Runtime monitoring of OSSchema histories (insert / erase / connect / edit operands and results with and without '
+    'saving / open / close / InitFor / Execute / ExecuteAll / save + shuffled reload) against an in-memory source manager '
+    'that records every change announcement: a structural monitor after every call (cells, handles, two distinct existing '
+    'parents, acyclicity, leaf-only erase, views agree, reload preserves the schema), result == fresh BinarySynthes of the '
+    'parents right after a successful Execute with user additions carried over under the old->new alias map, and '
+    '"done" implies the parents announced no formal change since the result was built.',
+    'Trusted: the harness source manager (documents always savable) and the reference synthesis (real BinarySynthes, checked by C12).',
+    'sanitizer build + structural-invariant monitor, differential oracle (stored result vs fresh synthesis) and announcement-log freshness monitor over OSS histories', 'DESIGN.md 4 C19')
+
 for _p in ['C01', 'C02', 'C03', 'C04', 'C05', 'C06', 'C07', 'C08', 'C09', 'C10', 'C11', 'C12', 'C13', 'C15', 'C16',
            'C17', 'C18', 'C19']:
     if _p not in CHECKS:
